@@ -5,6 +5,7 @@ import (
 	"fmt"
 	"os"
 	"sync"
+	"syscall"
 	"time"
 
 	"github.com/ErdemOzgen/blackdagger/internal/dag"
@@ -305,7 +306,7 @@ func (sc *Scheduler) Signal(
 	for _, node := range g.Nodes() {
 		// for a repetitive task, we'll wait for the job to finish
 		// until time reaches max wait time
-		if !node.data.Step.RepeatPolicy.Repeat {
+		if !node.data.Step.RepeatPolicy.Repeat || sig == syscall.SIGKILL {
 			node.signal(sig, allowOverride)
 		}
 	}
@@ -313,10 +314,20 @@ func (sc *Scheduler) Signal(
 		defer func() {
 			done <- true
 		}()
-		for g.IsRunning() {
+		for g.IsRunning() || sc.isExecuting(g) {
 			time.Sleep(sc.pause)
 		}
 	}
+}
+
+// isExecuting returns true while the command of any node is still running.
+func (*Scheduler) isExecuting(g *ExecutionGraph) bool {
+	for _, node := range g.Nodes() {
+		if node.isCmdRunning() {
+			return true
+		}
+	}
+	return false
 }
 
 // Cancel sends -1 signal to all nodes.
